@@ -153,6 +153,9 @@ def _p_norm(p: float, critical_pairs: list = []):
     result = 0.0
     for l in critical_pairs:
         for [[x0, y0], [x1, y1]] in zip(l, l[1:]):
+            if x1 == x0:
+                # zero-length segment (a repeated abscissa): contributes nothing to the integral
+                continue
             if y0 == y1:
                 # horizontal line segment
                 result += (np.abs(y0) ** p) * (x1 - x0)
